@@ -449,15 +449,16 @@ func (c *Ctx) accesses(f *core.Func, fields map[*types.Var]string) []access {
 		// protection
 		par := c.P.Parent(se)
 		switch {
+		case namedTypeName(v.Type()) == "atomic.Value":
+			a.prot = "atomic.Value"
+		case strings.HasPrefix(namedTypeName(v.Type()), "atomic.") && v.Type().String() != "sync/atomic.Value":
+			// atomic.Uint32, atomic.Int64, atomic.Bool, atomic.Pointer[T]: every access is a method of the type,
+			// with or without the mutex held
+			a.prot = "atomic"
 		case held[se]:
 			a.prot = "lock"
 		case isChanType(v.Type()):
 			a.prot = "chan"
-		case namedTypeName(v.Type()) == "atomic.Value":
-			a.prot = "atomic.Value"
-		case strings.HasPrefix(namedTypeName(v.Type()), "atomic.") && v.Type().String() != "sync/atomic.Value":
-			// atomic.Uint32, atomic.Int64, atomic.Bool, atomic.Pointer[T]: every access is a method of the type
-			a.prot = "atomic"
 		case namedTypeName(v.Type()) == "sync.Mutex":
 			a.prot = "mutex-itself"
 		default:
@@ -471,7 +472,7 @@ func (c *Ctx) accesses(f *core.Func, fields map[*types.Var]string) []access {
 		}
 		// a selector that only continues into a nested shared struct (l.heredoc.n) is not an access of `heredoc`
 		if _, isSel := par.(*ast.SelectorExpr); isSel {
-			if _, isStruct := v.Type().Underlying().(*types.Struct); isStruct && namedTypeName(v.Type()) != "strings.Builder" {
+			if _, isStruct := v.Type().Underlying().(*types.Struct); isStruct && namedTypeName(v.Type()) != "strings.Builder" && !strings.HasPrefix(namedTypeName(v.Type()), "atomic.") {
 				return true
 			}
 		}
@@ -897,6 +898,95 @@ func ruleCC4(pkgs ...string) Rule {
 					}
 				}
 				_ = prole
+			}
+		}}
+}
+
+// CC17: what the evaluator's two goroutines share is the token rendezvous and
+// the error slot, nothing else.
+func ruleCC17(pkg string) Rule {
+	return Rule{ID: "CC17", Kind: "must", Floor: 2,
+		Doc: "determinism by role: every field of the arithmetic lexer that is accessed both from the lexer goroutine's functions and from the parser-side functions, with at least one write, is a channel (the token rendezvous, the cancel channel) or the error slot, whose winner CC11 decides. Anything else the two sides share - a counter kept with sync/atomic, a flag under the mutex - is free of races and still holds, when the other side reads it, whatever the schedule let the writer reach: an offset the lexer advances while the parser reduces is not a function of the expression",
+		Run: func(c *Ctx, rr *core.RuleResult) {
+			fields := c.sharedStructFields(pkg)
+			var lrole map[*core.Func]bool
+			for _, g := range c.goRoots() {
+				if g.Target.Pkg.Name == pkg {
+					lrole = c.lexerRole(g.Target)
+				}
+			}
+			if lrole == nil {
+				rr.Unkp(c.P, pkg+"|root", 0, "no goroutine root in package "+pkg)
+				return
+			}
+			prole := c.parserRole(pkg)
+			errSlot := c.fieldVar(pkg, "lexer", "err")
+			spawnVars := map[types.Object]bool{}
+			for _, sp := range c.spawns(pkg) {
+				spawnVars[sp.Var] = true
+			}
+			type site struct {
+				a    access
+				role string
+			}
+			byField := map[*types.Var][]site{}
+			for _, f := range c.funcsOfPkg(pkg, true) {
+				inL, inP := lrole[f], prole[f]
+				if !inL && !inP {
+					continue
+				}
+				for _, a := range c.accesses(f, fields) {
+					if a.via != nil && spawnVars[a.via] {
+						continue
+					}
+					fv := core.FieldOf(f.Info(), a.node)
+					if inL {
+						byField[fv] = append(byField[fv], site{a, "lexer"})
+					}
+					if inP {
+						byField[fv] = append(byField[fv], site{a, "parser"})
+					}
+				}
+			}
+			var fvs []*types.Var
+			for v := range byField {
+				fvs = append(fvs, v)
+			}
+			sort.Slice(fvs, func(i, j int) bool { return fields[fvs[i]] < fields[fvs[j]] })
+			for _, v := range fvs {
+				sites := byField[v]
+				roles := map[string]bool{}
+				anyWrite := false
+				for _, s := range sites {
+					roles[s.role] = true
+					if s.a.write || s.a.prot == "atomic" {
+						anyWrite = true
+					}
+				}
+				if c.writtenAfterCtor(pkg, v) {
+					anyWrite = true
+				}
+				if !(roles["lexer"] && roles["parser"]) || !anyWrite {
+					continue
+				}
+				name := pkg + "." + fields[v] + "|shared value"
+				_, isChan := v.Type().Underlying().(*types.Chan)
+				switch {
+				case isChan:
+					rr.OKp(c.P, name, v.Pos(), "channel", "a channel: what passes is ordered by the hand-over itself")
+				case v == errSlot && errSlot != nil:
+					rr.OKp(c.P, name, v.Pos(), "error-slot", "the error slot: which store wins is decided by CC11")
+				default:
+					// the first read on the side that does not write it, else the first access
+					at := sites[0]
+					for _, s := range sites {
+						if !s.a.write {
+							at = s
+							break
+						}
+					}
+					rr.Bad(at.a.f, name, at.a.node.Pos(), fmt.Sprintf("%s is written on one side of the lexer/parser pair and read on the other, and is neither a channel nor the error slot: when it is read here (%s role) it holds whatever the schedule let the other goroutine reach, so the result is not a function of the expression", pkg+"."+fields[v], at.role))
+				}
 			}
 		}}
 }
